@@ -26,6 +26,11 @@ type Stream struct {
 	buf          bufReader
 	lastRuneSize int
 
+	// lastReadEOF is true if the last read reached the end of the stream without consuming anything.
+	// eosBeforeRead is the end-of-stream state before that read so that unreading can restore it.
+	lastReadEOF   bool
+	eosBeforeRead endOfStream
+
 	mode        ioMode
 	alias       Atom
 	position    int64
@@ -119,6 +124,7 @@ func (s *Stream) Name() string {
 // ReadByte reads a byte from the underlying source.
 // It throws an error if the stream is not an input binary stream.
 func (s *Stream) ReadByte() (byte, error) {
+	s.lastReadEOF = false
 	if err := s.initRead(); err != nil {
 		return 0, err
 	}
@@ -127,15 +133,21 @@ func (s *Stream) ReadByte() (byte, error) {
 		return 0, errWrongStreamType
 	}
 
+	eos := s.endOfStream
 	b, err := s.buf.ReadByte()
 	if err == nil {
 		s.position += 1
 	}
 	s.checkEOS(err)
+	s.lastReadEOF, s.eosBeforeRead = errors.Is(err, io.EOF), eos
 	return b, err
 }
 
 func (s *Stream) UnreadByte() error {
+	if s.unreadEOF() {
+		return nil
+	}
+
 	if err := s.initRead(); err != nil {
 		return err
 	}
@@ -155,6 +167,7 @@ func (s *Stream) UnreadByte() error {
 // ReadRune reads the next rune from the underlying source.
 // It throws an error if the stream is not an input text stream.
 func (s *Stream) ReadRune() (r rune, size int, err error) {
+	s.lastReadEOF = false
 	if err := s.initRead(); err != nil {
 		return 0, 0, err
 	}
@@ -163,14 +176,20 @@ func (s *Stream) ReadRune() (r rune, size int, err error) {
 		return 0, 0, errWrongStreamType
 	}
 
+	eos := s.endOfStream
 	r, n, err := s.buf.ReadRune()
 	s.position += int64(n)
 	s.lastRuneSize = n
 	s.checkEOS(err)
+	s.lastReadEOF, s.eosBeforeRead = errors.Is(err, io.EOF), eos
 	return r, n, err
 }
 
 func (s *Stream) UnreadRune() error {
+	if s.unreadEOF() {
+		return nil
+	}
+
 	if err := s.initRead(); err != nil {
 		return err
 	}
@@ -186,6 +205,17 @@ func (s *Stream) UnreadRune() error {
 		s.lastRuneSize = 0
 	}
 	return err
+}
+
+// unreadEOF undoes the last read if it reached the end of the stream: nothing was consumed, so the stream is no
+// more past the end of the stream than it was before the read.
+func (s *Stream) unreadEOF() bool {
+	if !s.lastReadEOF {
+		return false
+	}
+	s.lastReadEOF = false
+	s.endOfStream = s.eosBeforeRead
+	return true
 }
 
 // Seek sets the offset to the underlying source/sink.
